@@ -76,6 +76,18 @@ CHECKS = {
    design="6/C20",
    note="Trusted: literal evaluation in the schema model (bool/double from int, enum by name/number, const by reference, list/set/map/[] literals). Struct-literal defaults are not generated yet.",
    technique="runtime monitoring: schema-model oracle over generated programs"),
+ "C15": dict(
+   level="exploration",
+   text="Print-then-parse oracle: documents built from the parser's own descriptor types, printed in a canonical and two random layouts (whitespace, three comment styles, separators , ; none, quote styles, hex ints, spaced paths), half of the identifiers keyword-prefixed; File::parse must consume everything and return a Debug-identical document for every layout.",
+   design="6/C15",
+   note="Trusted: the printer (layout choices restricted to what the IDL leaves free; tokens are never merged). Documents are in the parser's normal form (function arguments Required/Optional).",
+   technique="runtime monitoring: generator + printer + round-trip oracle over layouts"),
+ "C16": dict(
+   level="exploration",
+   text="Totality monitor for File::parse: random UTF-8/keyword soup up to 64 KiB, token-level mutants, every numeric token inflated to 11/20/40/400 digits, unterminated comments/quotes, nesting of types/literals/minus runs at depths up to 64 (judged) and beyond (logged); each parse on a 2 MiB-stack thread in a supervised worker; panics and process deaths are observations.",
+   design="6/C16",
+   note="Nesting deeper than 64 is outside the statement's stack clause: stack overflows there are counted in the evidence, not judged.",
+   technique="runtime monitoring: panic capture + fixed-stack threads + process supervisor over mutated inputs"),
 }
 
 NOT_YET = "check not built yet (work in progress; see DESIGN.md section 6 for the planned monitor)"
@@ -109,7 +121,7 @@ def main():
         },
         "engines": [
             {"name": "harness", "path": "/verif/harness", "serves_properties": sorted(CHECKS.keys()),
-             "kind_free_text": "cargo workspace (refmodel: independent reference codecs, schema model, G_thrift, fault operators; monitors: counting allocator, scripted AsyncRead/executor, panic capture, process supervisor, vmerge; pcodec: value interpreter + codec/buffer matrix; rtcheck: runtime checks; pbuild: pilota-build as a child process; gentool/genorch + gencase: generated-code case crates and their checks)"},
+             "kind_free_text": "cargo workspace (refmodel: independent reference codecs, schema model, G_thrift, fault operators; monitors: counting allocator, scripted AsyncRead/executor, panic capture, process supervisor, vmerge; pcodec: value interpreter + codec/buffer matrix; rtcheck: runtime checks; parsecheck: IDL document generator/printer and parser checks; pbuild: pilota-build as a child process; gentool/genorch + gencase: generated-code case crates and their checks)"},
         ],
         "checks": checks,
         "notes": "Runtime monitoring and sanitizers only. Verdicts are three-valued: exit 0 held-on-observed, exit 1 VIOLATION, exit 3 INCONCLUSIVE (harness error / coverage floor not met). Known findings: /verif/known_findings.txt.",
